@@ -116,7 +116,11 @@ impl Env {
             max_tasks: 4 * n_src + 2 * n_dir + 8 * c.inputs.len() + 16,
             ..Default::default()
         };
+        let limited = c.fsize_limit.map(set_fsize_limit);
         let out = simulate(&self.root, cfg, sched, &opts);
+        if limited.is_some() {
+            clear_fsize_limit();
+        }
         let _ = std::env::set_current_dir(&self.scratch);
         out
     }
@@ -274,4 +278,38 @@ pub fn rseq(
     r.probes = read_probes(&env.vlog_ref);
     let _ = std::env::set_current_dir(&env.scratch);
     r
+}
+
+
+/// Fault F8: per-file size limit for this process (and the children it spawns). SIGXFSZ is
+/// ignored so that the offending write fails with EFBIG instead of killing the process.
+pub fn set_fsize_limit(bytes: u64) {
+    unsafe {
+        libc::signal(libc::SIGXFSZ, libc::SIG_IGN);
+        let mut cur = libc::rlimit {
+            rlim_cur: 0,
+            rlim_max: 0,
+        };
+        libc::getrlimit(libc::RLIMIT_FSIZE, &mut cur);
+        let lim = libc::rlimit {
+            rlim_cur: bytes as libc::rlim_t,
+            rlim_max: cur.rlim_max,
+        };
+        libc::setrlimit(libc::RLIMIT_FSIZE, &lim);
+    }
+}
+
+pub fn clear_fsize_limit() {
+    unsafe {
+        let mut cur = libc::rlimit {
+            rlim_cur: 0,
+            rlim_max: 0,
+        };
+        libc::getrlimit(libc::RLIMIT_FSIZE, &mut cur);
+        let lim = libc::rlimit {
+            rlim_cur: cur.rlim_max,
+            rlim_max: cur.rlim_max,
+        };
+        libc::setrlimit(libc::RLIMIT_FSIZE, &lim);
+    }
 }
